@@ -49,6 +49,21 @@ def reexec_fixed_hashseed():
         os.execve(sys.executable, [sys.executable] + sys.argv_orig, env)
 
 
+def library_frame(e):
+    """name of the deepest library function on the traceback if the exception came out of the library (no harness
+    frame below it), else None (= the harness itself failed)."""
+    tb = e.__traceback__
+    frames = []
+    while tb is not None:
+        frames.append(os.path.realpath(tb.tb_frame.f_code.co_filename) + ":" + tb.tb_frame.f_code.co_name)
+        tb = tb.tb_next
+    repo = os.path.realpath(REPO) + os.sep
+    verif = os.path.realpath(VERIF_DIR) + os.sep
+    last_verif = max([i for i, f in enumerate(frames) if f.startswith(verif)], default=-1)
+    lib = [f for f in frames[last_verif + 1:] if f.startswith(repo)]
+    return lib[-1].rsplit(":", 1)[1] if lib else None
+
+
 class Result:
     """Outcome of one atomic case."""
 
@@ -98,7 +113,20 @@ def _work(args):
     }
     try:
         for case in mod.expand(chunk):
-            r = mod.run_case(case)
+            try:
+                r = mod.run_case(case)
+            except Exception as e:
+                # an exception escaping from inside the library on a program the harness considers valid is a finding
+                # about the library (it must be reported as a violation, not as a broken harness); an exception raised
+                # by harness code itself is a harness error
+                lib = library_frame(e)
+                if lib is None:
+                    raise
+                r = Result()
+                r.nontrivial = 1
+                r.violate("%s|unexpected-exception|%s|%s" % (mod.PROPERTY, type(e).__name__, lib),
+                          "the library raised %s: %s while executing a program of this check" % (type(e).__name__, str(e)[:200]),
+                          traceback=traceback.format_exc()[-1500:])
             out["cases"] += 1
             out["transitions"] += r.transitions
             out["states"].update(r.states)
